@@ -3,7 +3,7 @@
 Case format (DESIGN Appendix A):
   {"weights": [w...], "ops": [op...]}
   op = ["s", asset, delta, priority, [inner op...]] | ["p", a] | ["u", a] | ["c", a] | ["past", delta]
-     | ["step"] | ["run", d]
+     | ["step"] | ["run", d] | ["again", i]  (second execute() of an executed event)
 Inner ops (performed by the event's action when it executes) are the same minus step/run.
 
 Oracles (ids):
@@ -121,6 +121,11 @@ class E1:
                 for r in self.recs:
                     if r.asset == a and r.state in ('q', 'p'):
                         r.cancelled = True
+        elif k == 'again':
+            # Event.execute() called a second time on an already executed event: the action must not run again
+            done = [r for r in self.recs if r.state == 'x' and r.ev is not None]
+            if done:
+                done[op[1] % len(done)].ev.execute()
         elif k == 'step':
             if inner:
                 return
